@@ -21,7 +21,7 @@ ASSUMPTIONS = ['exactq / exact_extra (Python int arithmetic) are correct',
                '"exact result of at most about 10^4 bits" is fixed a priori as n*(|exponent difference of the parts| + longest mantissa + 1) <= 9000; '
                'larger powers are observed, not asserted',
                '"a few units in the last place" for quotients/reciprocals/negative powers is fixed at |got-q| <= 4*2^-p*|q| (DESIGN section 3/C04)']
-SHARD_TIMEOUT = {'quick': 300, 'thorough': 2400}
+SHARD_TIMEOUT = {'quick': 600, 'thorough': 3600}
 LEVEL_TEXT = ('exploration: ~2.3*10^5 (quick) / ~2.5*10^6 (thorough) generated complex operations on the real code, each component compared '
               'bit-for-bit with the correct rounding of the exact component (sums, products, Gaussian-integer powers); quotients and '
               'negative powers decided exactly against 4*2^-p relative modulus error')
